@@ -117,8 +117,15 @@ def write_evidence(pid, tier, seed, level, coverage, assumptions, wall_s, violat
 def merge_reports(reports):
     """Sum counts of several engine reports; keep per-step detail."""
     tot = {"counts": {}, "observed": {}, "violations": [], "samples": [], "notes": [], "bounds": {}, "exhaustive": True, "steps": []}
+    groups = {}
     for name, r in reports:
+        base = name.split("[")[0]
         for k, v in r.get("counts", {}).items():
+            if k == "distinct_nontrivial":
+                # the same cases repeated under another build configuration are not new distinct cases
+                groups.setdefault(base, 0)
+                groups[base] = max(groups[base], v)
+                continue
             tot["counts"][k] = tot["counts"].get(k, 0) + v
         for k, v in r.get("observed", {}).items():
             tot["observed"][f"{name}:{k}"] = v
@@ -130,6 +137,8 @@ def merge_reports(reports):
             tot["bounds"][f"{name}:{k}"] = v
         tot["exhaustive"] = tot["exhaustive"] and r.get("exhaustive", True)
         tot["steps"].append({"step": name, "engine": r.get("engine"), "counts": r.get("counts", {})})
+    if groups:
+        tot["counts"]["distinct_nontrivial"] = sum(groups.values())
     return tot
 
 
